@@ -31,7 +31,7 @@ def run(ctx):
     behs += ctx.behaviours(gl)
     # TWO stubbed methods of one variable, the builder dropped, collections, then calls of EITHER method (every replacement of a variable
     # that is still held must stay alive, not only the one installed last)
-    gd = ctx.tlc("MC_Iface", "Gen_Iface.cfg", workers=1, timeout=1500, constants={"MaxOps": 5 if q else 6, "V": '{"i1"}', "M": "<- M1h", "Kinds": '{"stub", "when"}' if q else '{"stub", "when", "apply"}', "Args": "{7}", "Ops": '{"Mock", "Drop", "GC", "Call"}'},
+    gd = ctx.tlc("MC_Iface", "Gen_Iface.cfg", workers=1, timeout=1500, constants={"MaxOps": 5, "V": '{"i1"}', "M": "<- M1h", "Kinds": '{"stub", "when"}' if q else '{"stub", "when", "apply"}', "Args": "{7}", "Ops": '{"Mock", "Drop", "GC", "Call"}'},
                  tag="two methods of one variable, Drop, GC, Call: all histories")
     db = [b for b in ctx.behaviours(gd) if b[-1]["op"] == "Call" and {"Drop", "GC"} <= {x["op"] for x in b} and sum(1 for x in b if x["op"] == "Mock") >= 2]
     ctx.note("two-method Drop / GC histories: %d" % len(db))
@@ -48,7 +48,7 @@ def run(ctx):
     replay_family(ctx, "iface", behs, env=ENV, batch=4000)
     # with executable mappings REFUSED for the whole process (seccomp): every stub comes from goom's built-in reserve (C20's fallback,
     # end to end): the one-variable histories again, and the scale histories below
-    small = [b for b in behs if len(b) <= 6][:300 if q else 3000]
+    small = [b for b in behs if len(b) <= 6][:300 if q else 1200]
     s0 = replay_family(ctx, "iface", small, env=dict(ENV, VERIF_NOMMAP="1"), batch=20)   # (the reserve holds about 260 stubs and nothing is given back)
     # different variables mocked AT THE SAME TIME by builders of their own (twelve goroutines from a common start), checked sequentially
     from lib.replay import drv_binary
@@ -59,7 +59,7 @@ def run(ctx):
     # the same at scale (Scale.tla, instance ScaleI): 12 variables x 12 methods mocked in groups (more than a page of stub space)
     from checks import life
     life.scale(ctx, 16, 400, iface=True)
-    life.scale(ctx, 48, 400, iface=True, env={"VERIF_NOMMAP": "1"})
+    life.scale(ctx, 48, 160, iface=True, env={"VERIF_NOMMAP": "1"})
     ctx.cov["exhaustive"] = True
     ctx.cov["rule"] = ("every history of Mock(apply|stub)/Reset/Drop/GC/Call to the stated depth over 2 variables of a 3-method "
                        "interface (one initially nil, one holding a real implementation; the middle method in itab order unexported) "
